@@ -431,7 +431,7 @@ SlashAssets(st, a) ==
 Slash(st, a) ==
   IF NIsNeg(a.factor) THEN Fail(st, "ErrValueIsNilOrZero") ELSE
   IF a.infr > st.h THEN Fail(st, "ErrSlashOccurredHeight") ELSE
-  IF a.power <= 0 THEN Fail(st, "ErrInvalidSlashPower") ELSE
+  IF ~NIsPos(a.power) THEN Fail(st, "ErrInvalidSlashPower") ELSE
   LET r == SlashAssets(st, a) IN
   IF r.err # "" THEN Fail(st, r.err) ELSE
   IF <<a.o, a.id>> \in r.st.sinfo THEN Fail(st, "ErrSlashInfoExist") ELSE
